@@ -120,7 +120,13 @@ fn gen_tmo(rng: &mut Rng) -> Tmo {
     match rng.below(3) {
         0 => Tmo::None,
         1 => Tmo::Zero,
-        _ => Tmo::Finite,
+        _ => {
+            if rng.chance(20) {
+                Tmo::Huge
+            } else {
+                Tmo::Finite
+            }
+        }
     }
 }
 
